@@ -1,5 +1,6 @@
 import DirectVerif.Driver.Common
 import DirectVerif.Model.Shapes
+import DirectVerif.Model.ShapesChan
 /-!
 Line-protocol interpreter of the C17 shape model.
 
@@ -22,6 +23,15 @@ def answer (r : Except Err State) : String :=
   | .error e => errName e
 
 def runOn (p : List Op) (dims : List Int) : String := answer (run p { cur := nats dims })
+
+/-- full shapes `(N, C, *spatial)` at every hooked block and at the end -/
+def fullAnswer (r : Except Err Full) : String :=
+  match r with
+  | .ok f => okG ((f.trace ++ [f.final]).map ints)
+  | .error e => errName e
+
+def fullOn (sp : List Op) (ch : List COp) (n c : Int) (dims : List Int) : String :=
+  fullAnswer (fullRun sp ch n.toNat c.toNat (nats dims))
 
 def unetP (g : List Int) : Option UnetP :=
   match g with
@@ -83,6 +93,49 @@ def step (op : String) (gs : List (List Int)) : String :=
   | "gru", [[repl, inorm, layers], [groups, c], dims] =>
     if groups != 0 && !(groupReshapeOk groups.toNat c.toNat (nats dims)) then "err RuntimeError"
     else runOn (gru (repl != 0) (inorm != 0) layers.toNat) dims
+  -- whole networks, full shapes (batch, channels, spatial…): spatial program × channel program ------------------------
+  | "unetF", [[L], p, [n, cin, cout, F], dims] =>
+    match unetP p with
+    | some P => fullOn (unet P L.toNat) (unetC cin.toNat cout.toNat F.toNat L.toNat) n cin dims
+    | none => "err BadOp"
+  | "normunetF", [[L], p, [groups], [n, cin, cout, F], dims] =>
+    match unetP p with
+    | some P =>
+      if groupReshapeOk groups.toNat cin.toNat (nats dims) && groupReshapeOk groups.toNat cout.toNat (nats dims) then
+        fullOn (normUnet P L.toNat) (normUnetC cin.toNat cout.toNat F.toNat L.toNat) n cin dims
+      else "err RuntimeError"
+    | none => "err BadOp"
+  | "unet3dF", [[L], p, [n, cin, cout, F], dims] =>
+    match unetP p with
+    | some P => fullOn (unet3d P L.toNat) (unetC cin.toNat cout.toNat F.toNat L.toNat) n cin dims
+    | none => "err BadOp"
+  | "normunet3dF", [[L], p, [groups], [n, cin, cout, F], dims] =>
+    match unetP p with
+    | some P =>
+      if groupReshapeOk groups.toNat cin.toNat (nats dims) && groupReshapeOk groups.toNat cout.toNat (nats dims) then
+        fullOn (normUnet3d P L.toNat) (normUnetC cin.toNat cout.toNat F.toNat L.toNat) n cin dims
+      else "err RuntimeError"
+    | none => "err BadOp"
+  | "mwcnnF", [[S], [k, r], [n, cin, F, bn], dims] =>
+    fullOn (mwcnn ⟨k.toNat, r.toNat⟩ S.toNat) (mwcnnC (bn != 0) cin.toNat F.toNat S.toNat) n cin dims
+  | "dubF", [[e], p, [n, c], dims] =>
+    match didnP p with
+    | some P => fullOn (dub P (e != 0)) (dubC c.toNat (e != 0)) n c dims
+    | none => "err BadOp"
+  | "didnF", [[ndubs, nconv, skip], p, [n, cin, cout, c], dims] =>
+    match didnP p with
+    | some P =>
+      fullOn (didn P ndubs.toNat nconv.toNat (skip != 0)) (didnC cin.toNat cout.toNat c.toNat ndubs.toNat nconv.toNat (skip != 0)) n cin dims
+    | none => "err BadOp"
+  | "resnetF", [[k, p, nblocks], [n, cin, cout, h, bn], dims] =>
+    if nblocks ≤ 0 then "err BadOp"
+    else fullOn (resnet k.toNat p.toNat nblocks.toNat) (resnetC cin.toNat cout.toNat h.toNat (bn != 0) (nblocks.toNat - 1)) n cin dims
+  | "convnetF", [[k, p, bn, m], [n, cin, cout, h], dims] =>
+    fullOn (convNet k.toNat p.toNat (bn != 0) m.toNat) (convNetC cin.toNat cout.toNat h.toNat (bn != 0) m.toNat) n cin dims
+  | "gruF", [[repl, inorm, layers], [groups, c], [n, cin, h, cout], dims] =>
+    if groups != 0 && !(groupReshapeOk groups.toNat c.toNat (nats dims) && groupReshapeOk groups.toNat cout.toNat (nats dims)) then
+      "err RuntimeError"
+    else fullOn (gru (repl != 0) (inorm != 0) layers.toNat) (gruChanFallback cin.toNat h.toNat cout.toNat layers.toNat) n cin dims
   -- parameters the theorems are stated for ------------------------------------------------------------
   | "stdparams", [[kind], p] =>
     let same : Bool :=
